@@ -570,8 +570,14 @@ func writeEvidence(prop, tier string, seed int, results []*harnessResult, inconc
 	}
 	_ = srcHashes
 	ev["coverage"] = cov
-	ev["assumptions"] = append(anames, "solver soundness (z3 4.8.12 / cvc5 1.0 / z3 5.1)", "engine semantics of go/ssa (validated by conformance corpus and native replay)")
-	os.MkdirAll(filepath.Join(verifHome, "evidence"), 0o755)
+	ev["assumptions"] = append(anames, "solver soundness (z3 4.8.12 / cvc5 1.0 / z3 5.1)", "engine semantics of go/ssa (validated by native replay of every counterexample and re-evaluation of every solver model)")
 	b, _ := json.MarshalIndent(ev, "", " ")
+	if repo != "/repo" {
+		// a run against a scratch copy (seeded change, hand mutant) is not evidence
+		// about /repo: keep it with the run's other output
+		os.WriteFile(filepath.Join(verifHome, "out", prop, "evidence.json"), b, 0o644)
+		return
+	}
+	os.MkdirAll(filepath.Join(verifHome, "evidence"), 0o755)
 	os.WriteFile(filepath.Join(verifHome, "evidence", prop+".json"), b, 0o644)
 }
